@@ -32,4 +32,17 @@ META = {
                 functions=['do_constant_propagation / ConstantPropagationTransformer', 'do_remove_dead_code / RemoveDeadCodeTransformer',
                            'do_remove_unused_vars', 'do_remove_unused_dummy_args', 'do_remove_unused_call_args'],
                 bounds=dict(COMMON_BOUNDS), assumptions=COMMON_ASSUME),
+    'C33': dict(rule=RULE + '. Families: !$loki outline regions (read-only, written-and-read-after, read-write, local arrays fully/partially written, '
+                'loop variables, explicit intents, two regions, calls inside, conditional writes, region inside a loop) with the caller and the '
+                'generated routine interpreted together; extraction of internal procedures using host-associated scalars/arrays/sizes, '
+                'member functions, nested member calls, shadowing locals.',
+                functions=['outline_pragma_regions / outline_region', 'extract_internal_procedures'],
+                bounds=dict(COMMON_BOUNDS), assumptions=COMMON_ASSUME),
+    'C34': dict(rule=RULE + '. Families: caller + callee pairs, entry = caller: derived-type argument expansion (components read/written, nested '
+                'components, keyword calls), sequence association (element start, 2-D element, whole/section), explicit shapes for '
+                'assumed-shape dummies, duplicate argument removal (recurse / rename variants).',
+                functions=['DerivedTypeArgumentsTransformation', 'do_resolve_sequence_association', 'ArgumentArrayShapeAnalysis',
+                           'ExplicitArgumentArrayShapeTransformation', 'RemoveDuplicateArgs'],
+                bounds=dict(COMMON_BOUNDS, outside='TypeboundProcedureCallTransformation (type-bound calls are not interpreted), arrays of derived types'),
+                assumptions=COMMON_ASSUME),
 }
